@@ -166,6 +166,8 @@ func init() {
 	c6api.QuickWall, c6api.ThoroughWall = 45*time.Second, 6*time.Minute
 	c6api.Rule = "second stage of C06 (API request handlers): the C12 request histories with every handler panicking, before or after it has started its response; oracle: the server survives, a handler that had not started its response is answered with 500, and exactly one panic error with the value and a stack trace arrives on the module error channel per panicking handler"
 	props["C06"].Also = &c6api
+	// C12: "never crash or hang the server" includes the runtime's abort on overlapping map accesses (sessions, keys)
+	props["C12"].MapPkgs = "api,config"
 }
 
 func env() []string {
